@@ -205,15 +205,16 @@ func (b *Backend) expires(exp string) (*time.Time, *int64) {
 	if err != nil {
 		panic(err)
 	}
-	t := time.Now().Add(d)
-	e := int64(t.Sub(b.T0))
+	// wall-clock instant without monotonic reading: what a record read back from Redis carries, too
+	t := time.Now().Add(d).Round(0)
+	e := t.UnixNano() - b.T0.UnixNano()
 	return &t, &e
 }
 
 func (b *Backend) coqRec(r kvs.Record) string {
 	var e *int64
 	if r.ExpiresAt != nil {
-		x := int64(r.ExpiresAt.Sub(b.T0))
+		x := r.ExpiresAt.UnixNano() - b.T0.UnixNano()
 		e = &x
 	}
 	return fmt.Sprintf("(%s, %s, %s, %s)", hx.Str(r.Key), CoqVal(r.Value), hx.Nat(b.ID(r.Version)), CoqOptZ(e))
@@ -313,7 +314,7 @@ func (b *Backend) Exec(op Op) (obs Obs, ok bool) {
 		t, e := b.expires(op.Exp)
 		coqOp = fmt.Sprintf("XOp (Put %s %s %s)", hx.Str(op.Key), CoqVal(ValBytes(op.Val)), CoqOptZ(e))
 		run(func() {
-			r, err := b.S.Put(ctx, kvs.Record{Key: op.Key, Value: ValBytes(op.Val), Version: b.Version(op.Key, "cur"), ExpiresAt: t})
+			r, err := b.S.Put(ctx, kvs.Record{Key: op.Key, Value: ValBytes(op.Val), Version: "caller-version", ExpiresAt: t})
 			obs.T1 = b.now()
 			if c := Class(err); c != "OOk" {
 				out = c
